@@ -31,7 +31,7 @@ class P(vlib.Prop):
                      {"zz_verif_c04_test.go": "C04/l3m4_test.go",
                       "zz_verif_c04_common_test.go": os.path.join(WORK, "zz_verif_c04_common_exporterhelper_test.go")},
                      "^TestVerifC04$", "exporterhelper"),
-        vlib.Harness("profiles", "exporter", "./exporterhelper/xexporterhelper/",
+        vlib.Harness("profiles", "exporter/exporterhelper/xexporterhelper", ".",
                      {"zz_verif_c04_test.go": "C04/profiles_test.go",
                       "zz_verif_c04_common_test.go": os.path.join(WORK, "zz_verif_c04_common_xexporterhelper_test.go")},
                      "^TestVerifC04Profiles$", "xexporterhelper"),
